@@ -647,7 +647,10 @@ func (au *audition) setAndActivateVar(
 				as.activated = true
 			}
 		}
-		if !reflect.DeepEqual(val, prevV) {
+		// Samples of actor signals are forwarded to the collector by
+		// checkEvent itself, once per sample: only forward the other
+		// variables here, lest a changed sample be recorded twice.
+		if vn.actorName == "" && !reflect.DeepEqual(val, prevV) {
 			if report {
 				au.r.judge(ctx, I, "👉", "%s := %v", vn, val)
 			}
